@@ -29,10 +29,12 @@ def lit(c):
 # ------------------------------------------------------------------ generator
 
 @st.composite
-def gen_type(draw, classes, allow_untyped=True, max_union=3):
+def gen_type(draw, classes, allow_untyped=True, max_union=3, arrays=False):
     r = draw(st.integers(0, 99))
     if r < 8 and allow_untyped:
         return ["Untyped"]
+    if arrays and r < 20:
+        return [draw(st.sampled_from(["IntArray", "StringArray", "FloatArray"]))]
     pool = list(PRIMS) + list(classes)
     k = 1 if r < 65 else draw(st.integers(2, max_union))
     idx = draw(st.lists(st.integers(0, len(pool) - 1), min_size=k, max_size=k, unique=True))
@@ -40,11 +42,11 @@ def gen_type(draw, classes, allow_untyped=True, max_union=3):
 
 
 @st.composite
-def gen_decl(draw, name, classes, keywords=True, rest=True, untyped_ret=False):
+def gen_decl(draw, name, classes, keywords=True, rest=True, untyped_ret=False, arrays=False):
     args = []
     seen_default = False
     for _ in range(draw(st.sampled_from([0, 1, 1, 2, 2, 3]))):
-        a = {"types": draw(gen_type(classes)), "key": None, "default": False, "rest": False}
+        a = {"types": draw(gen_type(classes, arrays=arrays)), "key": None, "default": False, "rest": False}
         if seen_default or draw(st.integers(0, 4)) == 0:
             a["default"] = True
             seen_default = True
@@ -55,14 +57,16 @@ def gen_decl(draw, name, classes, keywords=True, rest=True, untyped_ret=False):
         nk = draw(st.sampled_from([0, 0, 0, 1, 2]))
         for kname in ["ka", "kb", "kc"][:nk]:
             args.append({"types": draw(gen_type(classes)), "key": kname, "default": draw(st.booleans()), "rest": False})
-    ret = draw(gen_type(classes, allow_untyped=untyped_ret))
+    ret = draw(gen_type(classes, allow_untyped=untyped_ret, arrays=arrays))
+    if arrays and draw(st.integers(0, 5)) == 0:
+        ret = [draw(st.sampled_from(["Int", "String", "Float"])), "NilClass"]
     if draw(st.integers(0, 9)) == 0:
         ret = ["Self"]
     return {"name": name, "args": args, "ret": ret, "block": []}
 
 
 @st.composite
-def gen_config(draw, nclasses=None, overloads=True, extends=True, keywords=True, rest=True, untyped_ret=False):
+def gen_config(draw, nclasses=None, overloads=True, extends=True, keywords=True, rest=True, untyped_ret=False, arrays=False):
     n = nclasses or draw(st.integers(2, 4))
     classes = CLASS_POOL[:n]
     out = []
@@ -70,12 +74,12 @@ def gen_config(draw, nclasses=None, overloads=True, extends=True, keywords=True,
         ims = []
         for j in range(draw(st.integers(1, 3))):
             name = "m%d" % j if draw(st.integers(0, 3)) else "%s%d" % (c[0].lower(), j)
-            ims.append(draw(gen_decl(name, classes, keywords, rest, untyped_ret)))
+            ims.append(draw(gen_decl(name, classes, keywords, rest, untyped_ret, arrays)))
             if overloads and draw(st.integers(0, 4)) == 0:
-                ims.append(draw(gen_decl(name, classes, keywords, rest, untyped_ret)))
+                ims.append(draw(gen_decl(name, classes, keywords, rest, untyped_ret, arrays)))
         cms = [{"name": "new", "args": [], "ret": [c], "block": []}]
         if draw(st.integers(0, 2)) == 0:
-            cms.append(draw(gen_decl("cm0", classes, keywords, rest, untyped_ret)))
+            cms.append(draw(gen_decl("cm0", classes, keywords, rest, untyped_ret, arrays)))
         ext = []
         if extends and i > 0 and draw(st.integers(0, 2)) == 0:
             ext = [classes[draw(st.integers(0, i - 1))]]
@@ -85,17 +89,35 @@ def gen_config(draw, nclasses=None, overloads=True, extends=True, keywords=True,
 
 # ------------------------------------------------------------------ rendering
 
+ARRAY_NAMES = {"IntArray": "[Int]", "StringArray": "[String]", "FloatArray": "[Float]"}
+NAMED_DEFAULT = {"String": "DefaultString", "Int": "DefaultInt", "Float": "DefaultFloat", "Bool": "DefaultBool", "Untyped": "DefaultUntyped"}
+NAMED_OPTIONAL = {"String": "OptionalString", "Int": "OptionalInt", "Float": "OptionalFloat"}
+ALL_FLIPS = ["union", "default", "named_default", "rest", "int", "scalar", "array", "optional", "named_optional"]
+
+
+def _names(types, notation):
+    out = []
+    for t in types:
+        if "array" in notation and t in ARRAY_NAMES:
+            t = ARRAY_NAMES[t]
+        if "int" in notation and t == "Int":
+            t = "Integer"
+        out.append(t)
+    return out
+
+
 def render_arg(a, notation=None):
-    """notation: None (long) or a set of flips {'union','default','rest','int'}"""
+    """notation: None (long) or a set of flips out of ALL_FLIPS (each flip swaps one documented equivalence)."""
     notation = notation or set()
-    types = list(a["types"])
-    if "int" in notation:
-        types = ["Integer" if t == "Int" else t for t in types]
+    types = _names(a["types"], notation)
     d = {}
     single = len(types) == 1
-    if "rest" in notation and a["rest"] and single:
+    plain = single and not types[0].startswith("[")
+    if "rest" in notation and a["rest"] and plain:
         d["type"] = ["*" + types[0]]
-    elif "default" in notation and a["default"] and single and not a["rest"]:
+    elif "named_default" in notation and a["default"] and single and not a["rest"] and a["types"][0] in NAMED_DEFAULT:
+        d["type"] = [NAMED_DEFAULT[a["types"][0]]]
+    elif "default" in notation and a["default"] and plain and not a["rest"]:
         d["type"] = ["?" + types[0]]
     else:
         if "union" in notation and len(types) > 1:
@@ -113,12 +135,14 @@ def render_arg(a, notation=None):
 
 def render_ret(types, notation=None):
     notation = notation or set()
-    types = list(types)
-    if "int" in notation:
-        types = ["Integer" if t == "Int" else t for t in types]
-    if "optional" in notation and len(types) == 2 and "NilClass" in types:
-        other = [t for t in types if t != "NilClass"][0]
-        return {"type": "?" + other}
+    raw = list(types)
+    types = _names(types, notation)
+    if len(raw) == 2 and "NilClass" in raw:
+        other = [t for t in raw if t != "NilClass"][0]
+        if "named_optional" in notation and other in NAMED_OPTIONAL and raw[1] == "NilClass":
+            return {"type": [NAMED_OPTIONAL[other]]}
+        if "optional" in notation and raw[1] == "NilClass" and not other.endswith("Array"):
+            return {"type": "?" + _names([other], notation)[0]}
     if "union" in notation and len(types) > 1:
         return {"type": "|".join(types)}
     if "scalar" in notation and len(types) == 1:
